@@ -89,6 +89,16 @@ MKeyShapes == { <<"k0">>, <<"k0", "k1">>, <<"k0", "k1", "k2">>, <<"k0", "k1", "k
                 <<"k0", "k1", "k2", "k0", "k1", "k2">> }
 MergeDeep == {Wrap(n, w) : n \in MLeafs, w \in MKeyShapes}
 
+(* documents for the carrier property (C16): every string atom y0..y39 (concretised by the yaml-hostile *)
+(* table) as root, array member, object value and object key; numbers; empty containers               *)
+YAtoms == {"y" \o ToString(i) : i \in 0..39}
+YamlDocs ==
+  UNION { {Str(y), Arr(<<Str(y), N1>>), O1("k0", Str(y)), Obj([j \in {y} |-> N1]), Arr(<<N1, Str(y)>>),
+           Obj([j \in {"k0", y} |-> IF j = "k0" THEN Arr(<<Str(y)>>) ELSE Str(y)]),
+           O2("k0", N1, "k1", Str(y))} : y \in YAtoms }
+  \cup {Num(8), Num(1), Num(-20), Num(8000000), Num(0), Num(-1), Num(1000001), EmptyArr, EmptyObj, Null, Bool(TRUE), Bool(FALSE),
+        Arr(<<EmptyArr, EmptyObj, Null>>), O2("k0", EmptyObj, "k1", EmptyArr), Arr(<<Num(1), Num(12)>>), O1("k0", Null)}
+
 (* type-confusable values for the equality oracle (C04) *)
 Confusable ==
   { Void, Null, Str(""), EmptyArr, EmptyObj, Num(0), Bool(FALSE), Bool(TRUE), Str("s0"),
